@@ -224,6 +224,42 @@ class Program:
     def method(self, cls, name):
         return self.funcs.get(f"{cls}.{name}")
 
+    def ctor_funcs(self, cls):
+        """the constructor of `cls` and the methods that only ever run as part of it: every `self.m(...)` call of such a method
+        in the package stands in the constructor or in another such method (fixpoint).  A long `__init__` split into
+        `_init_paths()` / `_init_synchronization()` keeps what the rules read off "the constructor"."""
+        cache = self.__dict__.setdefault("_ctor_funcs", {})
+        if cls in cache:
+            return cache[cls]
+        init = self.method(cls, "__init__")
+        if init is None:
+            cache[cls] = []
+            return []
+        callers = {}   # method name -> set of quals of the (top-level) functions that call self.<name>(...)
+        for q, f in self.funcs.items():
+            if f.inherited:
+                continue
+            top = f
+            while top.parent is not None:
+                top = top.parent
+            for c in ast.walk(f.node):
+                if isinstance(c, ast.Call) and isinstance(c.func, ast.Attribute) and isinstance(c.func.value, ast.Name) and c.func.value.id in ("self", cls):
+                    callers.setdefault(c.func.attr, set()).add(top.qual)
+                elif isinstance(c, ast.Attribute) and isinstance(c.value, ast.Name) and c.value.id == "self" and isinstance(getattr(c, "ctx", None), ast.Load) \
+                        and self.method(cls, c.attr) is not None and not isinstance(getattr(c, "_parent", None), ast.Call):
+                    callers.setdefault(c.attr, set()).add("<escapes>")     # method object handed around: may run any time
+        ctor = {init.qual}
+        changed = True
+        while changed:
+            changed = False
+            for name, who in callers.items():
+                m = self.method(cls, name)
+                if m is not None and m.qual not in ctor and who and who <= ctor:
+                    ctor.add(m.qual)
+                    changed = True
+        cache[cls] = [self.funcs[q] for q in sorted(ctor, key=lambda q: (q != init.qual, q))]
+        return cache[cls]
+
     def class_attr_assigns(self, cls):
         """class-level simple assignments name -> value node"""
         out = {}
